@@ -4,13 +4,16 @@
    The histories (tools/hist.py chain_history) are validated for soundness by DomainOps; here
    the recorded answers of the "chain" inclusion tests  acc_{i+1} <= acc_i  are judged:
      - the number of STRICT increases (answer no) is at most Cap, a bound that depends only on the
-       number of variables and thresholds, not on how far the values x_i grow;
-     - the chain is stationary at its end: the last TailLen tests all answer yes.
+       number of variables and thresholds (every unary / difference / octagonal constraint over the
+       variables of the chain is relaxed at most once per threshold and dropped at most once), not on how
+       far the values x_i grow.  Chains judged for stabilisation are LONGER than their cap, so a chain that
+       keeps growing exceeds it.  (A stationary tail is not demanded: a slowly growing chain may
+       legitimately cross a threshold at a late step.)
    One TLC state per (history, domain). *)
 EXTENDS Integers, Sequences, FiniteSets, TLC, Json, IOUtils
 
 Traces == ndJsonDeserialize(IOEnv.DOM_TRACES)
-Cap == atoi(IOEnv.CHAIN_CAP)
+EnvCap == atoi(IOEnv.CHAIN_CAP)
 TailLen == atoi(IOEnv.CHAIN_TAIL)
 
 VARIABLES t, d
@@ -19,6 +22,8 @@ Next == UNCHANGED <<t, d>>
 Spec == Init /\ [][Next]_<<t, d>>
 
 Tr == Traces[t]
+\* the bound on strict increases: per chain (number of constraints over its variables x (1 + thresholds)), at most EnvCap
+Cap == IF "cap" \in DOMAIN Tr /\ Tr.cap < EnvCap THEN Tr.cap ELSE EnvCap
 ChainSteps == {k \in DOMAIN Tr.steps : Tr.steps[k].op = "leq" /\ "chain" \in DOMAIN Tr.steps[k]}
 Ans(k) == Tr.obs[d].steps[k].ans
 Increases == {k \in ChainSteps : Ans(k) = 0}
@@ -26,9 +31,8 @@ LastK == {k \in ChainSteps : Cardinality({j \in ChainSteps : j > k}) < TailLen}
 
 Stabilises ==
   Tr.obs[d].err = 0 =>
-     \/ /\ Cardinality(Increases) <= Cap
-        /\ \A k \in LastK : Ans(k) = 1
-     \/ ~PrintT(<<"CHAIN", Tr.id, Tr.obs[d].dom, Cardinality(Increases), Cardinality(ChainSteps)>>)
+     \/ Cardinality(Increases) <= Cap
+     \/ ~PrintT(<<"CHAIN", Tr.id, Tr.obs[d].dom, Cardinality(Increases), Cardinality(ChainSteps), Cap>>)
 
 Longest == TRUE \/ PrintT(<<"LEN", Tr.id, Tr.obs[d].dom, Cardinality(Increases)>>)
 =========================================================================
